@@ -70,6 +70,19 @@ def seeds():
     except BaseException:  # noqa
         pass
     try:
+        # a nested, instanced scene: formats with a node hierarchy store references between their tables
+        sc = trimesh.Scene()
+        T = np.eye(4)
+        T[:3, 3] = [1.0, 2.0, 3.0]
+        sc.add_geometry(m, node_name="a", geom_name="g0", transform=T)
+        sc.add_geometry(m.copy(), node_name="b", geom_name="g1", parent_node_name="a", transform=T)
+        sc.graph.update(frame_to="c", frame_from="b", matrix=T, geometry="g0")
+        sc.graph.update(frame_to="d", frame_from="c", matrix=T, geometry="g1")
+        for fmt in ("3mf", "glb"):
+            add(fmt, sc.export(file_type=fmt))
+    except BaseException:  # noqa
+        pass
+    try:
         pc = trimesh.PointCloud(m.vertices, colors=m.visual.vertex_colors)
         add("xyz", pc.export(file_type="xyz"))
     except BaseException:  # noqa
@@ -156,6 +169,39 @@ def mutate(data, fault, other=None):
         # grow the input: repeat a chunk many times (length proportional checks)
         i, ln, times = fault[1] % max(n, 1), fault[2], fault[3]
         return data[:i] + data[i : i + ln] * times + data[i:]
+    if k == "zip_member":
+        # the fault is applied to the j-th member of a zip container (3mf, 3dxml, zip) and the archive is rebuilt, so the
+        # container itself stays valid and the loader reaches the corrupted document inside
+        try:
+            zin = zipfile.ZipFile(io.BytesIO(data))
+            names = zin.namelist()
+            if not names:
+                return data
+            j = fault[1] % len(names)
+            out = io.BytesIO()
+            with zipfile.ZipFile(out, "w", zipfile.ZIP_DEFLATED) as zout:
+                for i, name in enumerate(names):
+                    payload = zin.read(name)
+                    if i == j:
+                        payload = mutate(payload, fault[2], other)
+                    zout.writestr(name, payload)
+            return out.getvalue()
+        except (zipfile.BadZipFile, KeyError, OSError, RuntimeError):
+            return data
+    if k == "frac_token":
+        # the first token of the line that holds the byte at fraction f of the input is replaced
+        pos = min(int(fault[1] * n), max(n - 1, 0))
+        a = data.rfind(b"\n", 0, pos) + 1
+        b = data.find(b"\n", pos)
+        b = n if b < 0 else b
+        line = data[a:b]
+        parts = line.split(None, 1)
+        if not parts:
+            return data
+        return data[:a] + str(fault[2]).encode() + (b" " + parts[1] if len(parts) > 1 else b"") + data[b:]
+    if k == "frac_byte":
+        pos = min(int(fault[1] * n), max(n - 1, 0))
+        return mutate(data, ["byte", pos, fault[2]], other)
     if k == "multi":
         # several faults at once (e.g. two length fields of one header that police each other)
         for f in fault[1:]:
@@ -184,7 +230,25 @@ def mutate(data, fault, other=None):
     raise ValueError(k)
 
 
+_BIG = {}
+
+
+def big_seed(fmt, level):
+    """a valid file of an icosphere with 20 * 4**level faces, built by the exporter of the tree under test"""
+    key = (fmt, level)
+    if key not in _BIG:
+        import trimesh
+
+        m = trimesh.creation.icosphere(subdivisions=level)
+        kw = {"encoding": "ascii"} if fmt == "ply_ascii" else {}
+        data = m.export(file_type="ply" if fmt == "ply_ascii" else fmt, **kw)
+        _BIG[key] = data.encode("utf-8") if isinstance(data, str) else bytes(data)
+    return _BIG[key]
+
+
 def build_input(case):
+    if case.get("big") is not None:
+        return mutate(big_seed(case["fmt"], case["big"]), case["fault"], None)
     S = seeds()
     fmt = case["fmt"]
     pool = S.get(fmt) or [b""]
